@@ -1,5 +1,295 @@
-use crate::mc::Eng;
+//! C12 — EWMA and moving average are time-weighted convex averages and never panic.
+use crate::env::*;
+use crate::mc::*;
+use crate::refmodels::*;
 use crate::Ctx;
-pub fn run(_ctx: &Ctx) -> Vec<Eng> {
-    vec![]
+use rrtk::streams::control::*;
+use rrtk::*;
+
+#[derive(Clone, Copy, Debug, PartialEq)]
+pub enum Ev {
+    P(i64, f32),
+    N,
+    Er,
+}
+fn show(h: &[Ev]) -> String {
+    h.iter()
+        .map(|e| match e {
+            Ev::P(d, v) => format!("P(+{}ns,{:?})", d, v),
+            Ev::N => "N".to_string(),
+            Ev::Er => "E1".to_string(),
+        })
+        .collect::<Vec<_>>()
+        .join(",")
+}
+
+#[derive(Clone, Copy, Debug)]
+pub enum Cfg {
+    Ewma(f32),
+    Ma(i64),
+}
+
+const EPS: f64 = f32::EPSILON as f64;
+
+fn ulps(a: f32, b: f32, scale: f64) -> f64 {
+    if a == b {
+        return 0.0;
+    }
+    ((a as f64 - b as f64).abs()) / (EPS * scale.max(f64::MIN_POSITIVE))
+}
+
+/// run both payload variants of one filter in lockstep; per event (update f32, get f32, update Q, get Q)
+fn run_real(cfg: Cfg, h: &[Ev], t0: i64) -> Vec<(u32, Obs, u32, Obs)> {
+    let inf = rc(Scr::<f32>::new(Ok(None)));
+    let inq = rc(Scr::<Quantity>::new(Ok(None)));
+    let mut out = Vec::with_capacity(h.len());
+    let mut t = t0;
+    macro_rules! drive {
+        ($sf:expr, $sq:expr) => {{
+            let mut sf = $sf;
+            let mut sq = $sq;
+            for e in h {
+                match e {
+                    Ev::P(d, v) => {
+                        t += d;
+                        inf.borrow_mut().next = Ok(Some(Datum::new(Time(t), *v)));
+                        inq.borrow_mut().next = Ok(Some(Datum::new(Time(t), Quantity::new(*v, MILLIMETER))));
+                    }
+                    Ev::N => {
+                        inf.borrow_mut().next = Ok(None);
+                        inq.borrow_mut().next = Ok(None);
+                    }
+                    Ev::Er => {
+                        inf.borrow_mut().next = Err(E1);
+                        inq.borrow_mut().next = Err(E1);
+                    }
+                }
+                let uf = obs_unit(&sf.update());
+                let gf = obs(&sf.get());
+                let uq = obs_unit(&sq.update());
+                let gq = obs(&sq.get());
+                out.push((uf, gf, uq, gq));
+            }
+        }};
+    }
+    match cfg {
+        Cfg::Ewma(s) => drive!(EWMAStream::new(rf(&inf), s), EWMAStream::new(rf(&inq), s)),
+        Cfg::Ma(w) => drive!(MovingAverageStream::new(rf(&inf), Time(w)), MovingAverageStream::new(rf(&inq), Time(w))),
+    }
+    out
+}
+
+pub fn check_history(cfg: Cfg, h: &[Ev], e: &mut Eng) -> u64 {
+    let n = h.len();
+    let t0 = 7 * S;
+    let cname = match cfg {
+        Cfg::Ewma(_) => "ewma",
+        Cfg::Ma(_) => "moving-average",
+    };
+    let main = match guard(|| run_real(cfg, h, t0)) {
+        Ok(m) => m,
+        Err(m) => {
+            e.violation(&format!("filter:{}:panic", cname), n, || format!("{:?} history [{}]: update() panicked: {}", cfg, show(h), m));
+            return n as u64;
+        }
+    };
+    e.outcome(h64(&(format!("{:?}", cfg), &main)));
+    // model bookkeeping
+    let mut t = t0;
+    let mut window: Vec<(i64, f32)> = Vec::new(); // samples since the last error (moving average keeps those inside the window)
+    let mut prev_out: Option<(i64, f32)> = None; // EWMA: previous real output and its time
+    let mut contrib: Vec<f32> = Vec::new(); // every sample since the last reset (EWMA convexity)
+    let mut nontrivial = false;
+    for (k, ev) in h.iter().enumerate() {
+        e.checks += 1;
+        let (uf, gf, uq, gq) = main[k];
+        let fail = |e: &mut Eng, cls: &str, what: String| {
+            e.violation(&format!("filter:{}:{}", cname, cls), k + 1, || format!("{:?} history [{}]: at event {}: {}", cfg, show(&h[..=k]), k, what));
+        };
+        // the two payload variants agree (category, time, value within 2 ulp)
+        let var_ok = uf == uq && gf.tag == gq.tag && (gf.tag != 1 || (gf.time == gq.time && ulps(gf.f(0), gq.f(0), gf.f(0).abs() as f64) <= 2.0 && gq.bits[3] == unit_code(MILLIMETER) as u32));
+        if !var_ok {
+            fail(e, "variants-differ", format!("f32 variant gives (update {}, {}) but Quantity variant gives (update {}, {})", uf, gf.show(), uq, gq.show()));
+            return n as u64;
+        }
+        match ev {
+            Ev::Er => {
+                window.clear();
+                contrib.clear();
+                prev_out = None;
+                if uf != 3 {
+                    fail(e, "update-result", "update() did not return the input's error".to_string());
+                    return n as u64;
+                }
+            }
+            Ev::N => {
+                // ignored: output unchanged unless an error was cached
+                if uf != 0 {
+                    fail(e, "update-result", "update() on an absent input returned an error".to_string());
+                    return n as u64;
+                }
+                if k > 0 && !main[k - 1].1.is_err() && gf != main[k - 1].1 {
+                    fail(e, "absent-changes-output", format!("get() changed from {} to {} on an absent input", main[k - 1].1.show(), gf.show()));
+                    return n as u64;
+                }
+            }
+            Ev::P(d, v) => {
+                t += d;
+                contrib.push(*v);
+                if uf != 0 || !gf.is_some() || gf.time != t {
+                    fail(e, "present", format!("update() = {}, get() = {} but a present sample at time {} must give a present output with that time", uf, gf.show(), t));
+                    return n as u64;
+                }
+                let got = gf.f(0);
+                match cfg {
+                    Cfg::Ewma(s) => {
+                        match prev_out {
+                            None => {
+                                if got != *v {
+                                    fail(e, "first-sample", format!("first sample {} returned as {}", v, got));
+                                    return n as u64;
+                                }
+                            }
+                            Some((tp, p)) => {
+                                nontrivial = true;
+                                let dt32 = (t - tp) as f32 / 1_000_000_000.0;
+                                let lam32 = 1.0f32 - backend_powf(1.0 - s, dt32);
+                                let lam = lam32 as f64;
+                                let reference = p as f64 * (1.0 - lam) + *v as f64 * lam;
+                                let scale = (p.abs() + v.abs()) as f64;
+                                // dt may legitimately be rounded differently by one ulp: allow the induced change of lambda
+                                let dt_lo = backend_powf(1.0 - s, dt32 * (1.0 - 2.0 * f32::EPSILON)) as f64;
+                                let dt_hi = backend_powf(1.0 - s, dt32 * (1.0 + 2.0 * f32::EPSILON)) as f64;
+                                let lam_slack = (dt_lo - dt_hi).abs() + 4.0 * EPS;
+                                let tol = 4.0 * EPS * scale + lam_slack * (p as f64 - *v as f64).abs();
+                                if !((got as f64 - reference).abs() <= tol) {
+                                    fail(e, "value", format!("previous output {} at {}, new sample {} at {} (dt {} s, smoothing {}): lambda = 1-(1-s)^dt = {} so prev*(1-L)+new*L = {} but get() = {}", p, tp, v, t, dt32, s, lam, reference, got));
+                                    return n as u64;
+                                }
+                                // convexity step-locally
+                                let (lo, hi) = (p.min(*v) as f64, p.max(*v) as f64);
+                                if (0.0..=1.0).contains(&s) && !((got as f64) >= lo - 2.0 * EPS * scale && (got as f64) <= hi + 2.0 * EPS * scale) {
+                                    fail(e, "not-convex", format!("output {} lies outside [{}, {}]", got, lo, hi));
+                                    return n as u64;
+                                }
+                            }
+                        }
+                        prev_out = Some((t, got));
+                    }
+                    Cfg::Ma(w) => {
+                        window.push((t, *v));
+                        while window[0].0 <= t - w {
+                            window.remove(0);
+                        }
+                        if window.len() >= 2 {
+                            nontrivial = true;
+                        }
+                        // weights: interval each retained sample covers; non-negative, sum = window
+                        let mut acc = Tr::exact(0.0);
+                        let mut start = t - w;
+                        let mut wsum = 0i64;
+                        for &(ti, vi) in &window {
+                            let wi = ti - start;
+                            assert!(wi >= 0);
+                            wsum += wi;
+                            acc = acc.add(Tr::exact(vi).mul(secs(wi)));
+                            start = ti;
+                        }
+                        assert_eq!(wsum, w, "reference weights must sum to the window");
+                        let reference = acc.div(secs(w));
+                        if !reference.agrees(got, 8.0) {
+                            fail(e, "value", format!("window {} ns holds samples {:?}; time-weighted average = {} but get() = {}", w, window, reference.show(), got));
+                            return n as u64;
+                        }
+                        if window.len() == 1 && ulps(got, *v, v.abs() as f64) > 2.0 {
+                            fail(e, "first-sample", format!("a lone sample {} in the window returned as {}", v, got));
+                            return n as u64;
+                        }
+                    }
+                }
+                // global convexity and constant-in => constant-out
+                let lo = contrib.iter().cloned().fold(f32::INFINITY, f32::min) as f64;
+                let hi = contrib.iter().cloned().fold(f32::NEG_INFINITY, f32::max) as f64;
+                let scale = lo.abs().max(hi.abs());
+                let smooth_ok = match cfg {
+                    Cfg::Ewma(s) => (0.0..=1.0).contains(&s),
+                    _ => true,
+                };
+                if smooth_ok && !((got as f64) >= lo - 4.0 * EPS * scale * contrib.len() as f64 && (got as f64) <= hi + 4.0 * EPS * scale * contrib.len() as f64) {
+                    fail(e, "not-convex", format!("output {} lies outside the range [{}, {}] of the samples since the last reset", got, lo, hi));
+                    return n as u64;
+                }
+            }
+        }
+    }
+    if nontrivial {
+        e.nontrivial += 1;
+    }
+    n as u64
+}
+
+fn syms() -> Vec<Ev> {
+    let mut v = Vec::new();
+    for dt in [0i64, 1, S / 2, 3 * S] {
+        for x in [-4.0f32, 1.0, 10.0] {
+            v.push(Ev::P(dt, x));
+        }
+    }
+    v.push(Ev::N);
+    v.push(Ev::Er);
+    v
+}
+pub fn cfgs() -> Vec<Cfg> {
+    vec![Cfg::Ma(1), Cfg::Ma(S / 2), Cfg::Ma(2 * S), Cfg::Ma(3600 * S), Cfg::Ewma(0.0), Cfg::Ewma(0.25), Cfg::Ewma(0.5), Cfg::Ewma(1.0)]
+}
+
+pub fn run(ctx: &Ctx) -> Vec<Eng> {
+    let budget = Budget::secs(if ctx.thorough { 2000 } else { 120 });
+    let depth = if ctx.thorough { 6 } else { 5 };
+    let sy = syms();
+    let mut e1 = Eng::new(
+        "c12-seqs",
+        "all histories of exactly `depth` events over {P(dt,v): dt in {0,1ns,0.5s,3s} (non-decreasing, possibly repeated timestamps), v in {-4,1,10}} + {N,E1} x windows {1ns,0.5s,2s,1h} and smoothing {0,0.25,0.5,1}; f32 and Quantity variants driven in lockstep; oracles per event: no panic; moving average = time-weighted mean of the samples inside the window (weights >= 0 summing to the window; f64 reference with forward-error bound); EWMA = prev*(1-L)+new*L with L from the same build's powf; output within [min,max] of contributing samples; first/lone sample returned; absent inputs change nothing; variants agree within 2 ulp; non-trivial = an output that mixes at least two samples",
+        &format!("depth {} => 14^{} histories x 8 filter configurations", depth, depth),
+    );
+    for cfg in cfgs() {
+        par_seqs(&mut e1, sy.len(), depth, budget, |seq, e| {
+            let h: Vec<Ev> = seq.iter().map(|&s| sy[s]).collect();
+            let a = check_history(cfg, &h, e);
+            e.sample(|| format!("{:?} [{}]", cfg, show(&h)));
+            a
+        });
+    }
+    let (hz, k) = if ctx.thorough { (64, 3) } else { (24, 2) };
+    let mut e2 = Eng::new(
+        "c12-deviations",
+        "all histories of exactly H events differing from the default stream P(0.5 s, cycle {-4,1,10}) in at most k positions, deviations {N, E1, P(+0), P(+1ns), P(+3s), P(+1h)}; 8 filter configurations",
+        &format!("H={} k={}", hz, k),
+    );
+    let cases = deviation_cases(hz, 6, k);
+    let cyc = [-4.0f32, 1.0, 10.0];
+    for cfg in cfgs() {
+        par_cases(&mut e2, &cases, budget, |c, e| {
+            let mut h: Vec<Ev> = (0..hz).map(|i| Ev::P(S / 2, cyc[i % 3])).collect();
+            for &(p, a) in c {
+                let v = cyc[(p as usize + 1) % 3];
+                h[p as usize] = match a {
+                    0 => Ev::N,
+                    1 => Ev::Er,
+                    2 => Ev::P(0, v),
+                    3 => Ev::P(1, v),
+                    4 => Ev::P(3 * S, v),
+                    _ => Ev::P(3600 * S, v),
+                };
+            }
+            e.executions += 1;
+            e.states += 1;
+            e.max_depth = e.max_depth.max(hz as u64);
+            e.transitions += check_history(cfg, &h, e);
+            if c.len() == k {
+                e.sample(|| format!("{:?} [{}]", cfg, show(&h)));
+            }
+        });
+    }
+    vec![e1, e2]
 }
